@@ -1,7 +1,8 @@
 //! C19 — damaged cross-reference data is reconstructed faithfully.
 //!
-//! Space (fault enumeration, nothing sampled): 6 valid single-revision files without object
-//! streams (3 written by the library's own writer, 3 by the refpdf builder) × the damage
+//! Space (fault enumeration, nothing sampled): 10 valid single-revision files without object
+//! streams (3 written by the library's own writer, 3 by the refpdf builder with LF line ends, and
+//! the two larger crafted ones again with CR-only and CRLF line ends) × the damage
 //! catalogue {shift every in-use offset by δ ∈ {+1,−1,+7,−7,+1000}; corrupt entry i in two styles
 //! (offset digits made unparsable / offset +3 = inside the object header), each i; swap the
 //! offsets of entries i and j, every pair; delete the table (keep the trailer); delete
@@ -14,7 +15,7 @@
 //! recovery scan runs) and damage that leaves a syntactically parsable but wrong table.
 use crate::util::objcmp;
 use oxidize_pdf::parser::{ParseOptions, PdfDocument, PdfReader};
-use refpdf::builder::{FileBuilder, Revision, XrefForm};
+use refpdf::builder::{Eol, FileBuilder, Revision, XrefForm};
 use refpdf::file::PdfFile;
 use refpdf::syntax::Obj;
 use serde_json::json;
@@ -50,6 +51,8 @@ struct Seed {
     trailer: Vec<u8>,
     /// everything from `startxref` on is re-rendered: "startxref" eol N eol "%%EOF" rest
     tail_after_number: Vec<u8>,
+    /// the end-of-line bytes after `startxref` and after its number
+    sx_eol: (Vec<u8>, Vec<u8>),
     /// flat indices (subsection, entry) of in-use entries
     in_use: Vec<(usize, usize)>,
 }
@@ -112,7 +115,8 @@ fn parse_seed(name: &'static str, bytes: Vec<u8>) -> Result<Seed, String> {
         subsections.push((header, ents));
     }
     let trailer = bytes[pos..sx].to_vec();
-    let s = Seed { name, xref_off, xref_line, subsections, trailer_kw_len: 7, trailer, tail_after_number: bytes[after_num..].to_vec(), in_use, bytes };
+    let sx_eol = (bytes[sx + 9..num_start].to_vec(), bytes[num_end..after_num].to_vec());
+    let s = Seed { name, sx_eol, xref_off, xref_line, subsections, trailer_kw_len: 7, trailer, tail_after_number: bytes[after_num..].to_vec(), in_use, bytes };
     // the undamaged rendering must reproduce the file byte for byte
     let again = render(&s, &Dmg::default());
     if again != s.bytes {
@@ -140,7 +144,18 @@ fn lib_doc(pages: usize, compress: bool, meta: bool) -> Result<Vec<u8>, String> 
     doc.to_bytes().map_err(|e| e.to_string())
 }
 
-fn scattered_doc() -> Vec<u8> {
+fn ref_doc(n_pages: usize, eol: Eol) -> Vec<u8> {
+    let mut r = Revision::new(XrefForm::Table);
+    for (n, o) in refpdf::builder::simple_doc_objects(n_pages, &|i| format!("BT /F1 12 Tf 72 720 Td (Page {}) Tj ET", i + 1).into_bytes()) {
+        r.add(n, o);
+    }
+    let mut fb = FileBuilder::new(1);
+    fb.eol = eol;
+    fb.revisions.push(r);
+    fb.build().bytes
+}
+
+fn scattered_doc(eol: Eol) -> Vec<u8> {
     // objects out of numeric order, a gap (object 6 never existed → two subsections), a free
     // entry inside a subsection (object 4), an /Info dictionary, an object with generation 2,
     // and an orphaned earlier copy of object 7 that the table does not reference
@@ -163,6 +178,7 @@ fn scattered_doc() -> Vec<u8> {
     r.add(8, Obj::dict(vec![("Title", Obj::str(b"scattered")), ("Producer", Obj::str(b"refpdf builder"))]));
     r.free.push((4, 1));
     let mut fb = FileBuilder::new(1);
+    fb.eol = eol;
     fb.info = Some((8, 0));
     fb.revisions.push(r);
     fb.build().bytes
@@ -300,7 +316,10 @@ fn render(s: &Seed, d: &Dmg) -> Vec<u8> {
         Sx::Eof => Some(s.bytes.len() as u64),
     };
     if let Some(t) = target {
-        out.extend_from_slice(format!("startxref\n{t}\n").as_bytes());
+        out.extend_from_slice(b"startxref");
+        out.extend_from_slice(&s.sx_eol.0);
+        out.extend_from_slice(t.to_string().as_bytes());
+        out.extend_from_slice(&s.sx_eol.1);
     }
     out.extend_from_slice(&s.tail_after_number);
     out
@@ -384,7 +403,12 @@ pub fn run(rep: &mut Report) {
         ("lib-2pages-uncompressed", lib_doc(2, false, true)),
         ("ref-1page", Ok(refpdf::builder::simple_doc(1, XrefForm::Table, false).bytes)),
         ("ref-3pages", Ok(refpdf::builder::simple_doc(3, XrefForm::Table, false).bytes)),
-        ("ref-scattered", Ok(scattered_doc())),
+        ("ref-scattered", Ok(scattered_doc(Eol::Lf))),
+        // end-of-line flavours of the crafted seeds (ISO 32000-1 7.2.3: CR, LF, CRLF)
+        ("ref-3pages-CR", Ok(ref_doc(3, Eol::Cr))),
+        ("ref-3pages-CRLF", Ok(ref_doc(3, Eol::CrLf))),
+        ("ref-scattered-CR", Ok(scattered_doc(Eol::Cr))),
+        ("ref-scattered-CRLF", Ok(scattered_doc(Eol::CrLf))),
     ];
     let mut prepared: Vec<Prepared> = Vec::new();
     for (name, bytes) in raw.drain(..) {
